@@ -100,9 +100,14 @@ def gen_programs(payload):
     out = []
     modes = list(MODES)
     for n in range(payload["count"]):
+        if r.random() < 0.3:
+            prog, family = program.gen_semiring(r)
+            mode = r.choice(["normalize_build", "lazy_normalize", "optimizer", "optimizer", "lazy", "eager", "sequential"])
+            out.append({"program": prog, "family": family, "mode": mode, "workload": "semiring"})
+            continue
         g = program.Gen(r)
         prog = g.generate(r.randint(3, 10), n_leaves=r.randint(2, 4))
-        out.append({"program": prog, "family": g.family_name, "mode": r.choice(modes)})
+        out.append({"program": prog, "family": g.family_name, "mode": r.choice(modes), "workload": "core"})
     return {"programs": out, "violations": [], "stats": {}}
 
 
